@@ -1256,7 +1256,7 @@ Qed.
 Lemma r_step_inv w s op : wgood w -> RInv w s -> RInv w (fst (r_step w s op)).
 Proof.
   intros Hw [Hs [Hb [Hr Hwn]]]. unfold RInv.
-  destruct op as [|keep|keep|]; cbn [r_step].
+  destruct op as [|keep|keep|sd]; cbn [r_step].
   - destruct (r_open_inv w (s_obj s) Hw Hs Hb Hwn) as [o' [E [H1 [H2 [H3 [H4 H5]]]]]].
     rewrite E. cbn [fst s_obj]. split; [exact H1|split; [|split; [|exact H5]]].
     + intros Hf. rewrite H3. apply Hb. rewrite <- H2. exact Hf.
@@ -1274,7 +1274,7 @@ Proof.
       as [o2 [E [H1 [H2 [H3 [H4 H5]]]]]].
     destruct (o_raw (s_obj s)); cbn [fst]; try exact I1; rewrite E; cbn [fst];
       (split; [exact H1|split; [intros _; rewrite H3; reflexivity|split; [rewrite H4; discriminate|exact H5]]]).
-  - destruct (o_file (s_obj s)) eqn:Ef; cbn [fst]; (split; [exact Hs|split; [intros E; rewrite ?Ef in E; first [discriminate E|apply Hb; reflexivity]|split; [exact Hr|exact Hwn]]]).
+  - destruct (o_file (s_obj s)) eqn:Ef, sd; cbn [fst s_obj]; (split; [exact Hs|split; [intros E; rewrite ?Ef in E; first [discriminate E|apply Hb; reflexivity]|split; [exact Hr|exact Hwn]]]).
 Qed.
 
 Lemma r_start_inv w f : RInv w (r_start w f (w_n w)).
@@ -1298,9 +1298,9 @@ Lemma r_step_noraise w s op : wgood w -> RInv w s ->
   snd (r_step w s op) = true ->
   (exists k, op = RCompress k /\ o_file (s_obj s) = DCbin) \/
   (exists k, op = RDecompress k /\ o_file (s_obj s) = DBin) \/
-  (op = RScratch /\ o_file (s_obj s) = DBin).
+  (op = RScratch true /\ o_file (s_obj s) = DBin /\ s_sb s = false).
 Proof.
-  intros Hw [Hs [Hb [Hr Hwn]]]. destruct op as [|keep|keep|]; cbn [r_step].
+  intros Hw [Hs [Hb [Hr Hwn]]]. destruct op as [|keep|keep|sd]; cbn [r_step].
   - destruct (r_open_inv w (s_obj s) Hw Hs Hb Hwn) as [o' [E _]]. rewrite E. discriminate.
   - destruct (o_file (s_obj s)); [discriminate|]. intros _. left. eauto.
   - destruct (o_file (s_obj s)) eqn:Ef; [intros _; right; left; eauto|].
@@ -1308,7 +1308,8 @@ Proof.
     set (o1 := mkR DBin (fsize w DBin) (o_ns (s_obj s)) RawNone (o_warn (s_obj s))).
     destruct (r_open_inv w o1 Hw Hs (fun _ => eq_refl) Hwn) as [o2 [E _]].
     destruct (o_raw (s_obj s)); cbn [snd]; try discriminate; rewrite E; discriminate.
-  - destruct (o_file (s_obj s)); [intros _; right; right; auto|discriminate].
+  - destruct (o_file (s_obj s)) eqn:Ef, sd; cbn [snd]; try discriminate.
+    intros H. right; right. apply negb_true_iff in H. auto.
 Qed.
 
 Lemma r_reopened w s : wgood w -> RInv w s ->
